@@ -11,6 +11,7 @@ No solver: guards are decided by interval evaluation of terms and by matching or
 post-state, return value, guard facts, and the panic obligations met on the way.
 """
 import copy
+import json
 from fractions import Fraction as Fr
 
 from .terms import (Poly, B, Ctx, NAN, ZERO, ONE, INF, TRUE, FALSE, as_poly, bconst, bnot, band, bor,
@@ -330,6 +331,7 @@ class Interp:
         self.fns_analysed = set()
         self.fixpoint_depth = 0
         self.loop_hook = None       # callable(interp, st, frame, cfg, head): rule-specific loop-head abstraction
+        self.loop_rankings = {}     # (fn path, loop head) -> [ranking function found at each analysis of the loop | None]
         self.invariants = {}        # adt path -> callable(st, StructV): constrain field ranges (type invariants)
 
     def stub_for(self, path):
@@ -1407,6 +1409,32 @@ class Interp:
                     info = {'ranges': cur, 'no_iteration': not backs, 'reductions': []}
                     if backs:
                         info['reductions'] = self.recognise_reductions(st, fr, places, idx, sym_of, backs, depth)
+                    # ranking function: an integer place that strictly decreases (or strictly increases) on EVERY back edge of
+                    # one abstract iteration from the inductive head state.  In a bounded integer type that bounds the number
+                    # of iterations (an overflow on the way is a panic obligation of its own).
+                    rank = 'no iteration reaches the back edge' if not backs else None
+                    for n in idx:
+                        x = sym_of.get(n)
+                        if rank is not None or x is None:
+                            continue
+                        dec = inc = True
+                        for o in backs:
+                            try:
+                                v = self.read_place(o.state, o.state.frames[depth], places[n])
+                            except InterpError:
+                                dec = inc = False
+                                break
+                            if not isinstance(v, Num):
+                                dec = inc = False
+                                break
+                            xp = Poly.atom(x)
+                            if o.ctx.decide(cmp_term('Lt', v.term, xp)) is not True:
+                                dec = False
+                            if o.ctx.decide(cmp_term('Gt', v.term, xp)) is not True:
+                                inc = False
+                        if dec or inc:
+                            rank = '%s strictly %s on every back edge' % (self.place_name(fr, places[n]), 'decreases' if dec else 'increases')
+                    self.loop_rankings.setdefault((fr.fn['path'], head), []).append(rank)
                     return info
             return None
         finally:
@@ -1574,6 +1602,12 @@ class Interp:
                         st.ctx.ranges[a] = ranges[n]
             cont[k] = nv
         return sym_of
+
+    def place_name(self, fr, pl):
+        try:
+            return 'place %s' % (json.dumps(pl)[:80] if not isinstance(pl, str) else pl)
+        except Exception:
+            return 'place %r' % (pl,)
 
     def havoc_value(self, st, v, tag):
         if isinstance(v, Num):
